@@ -230,3 +230,15 @@ Lemma shl_big s x : 256 <= s -> wshl s x = 0.
 Proof. intros H. unfold wshl. destruct (Z.ltb_spec s 256); [lia|reflexivity]. Qed.
 Lemma shr_big s x : 256 <= s -> wshr s x = 0.
 Proof. intros H. unfold wshr. destruct (Z.ltb_spec s 256); [lia|reflexivity]. Qed.
+
+Lemma or_ones_l x : inw x -> wor (W - 1) x = W - 1.
+Proof.
+  intros H. rewrite W_ones. unfold wor.
+  apply Z.bits_inj'; intros n Hn. rewrite Z.lor_spec.
+  destruct (Z_lt_le_dec n 256).
+  - rewrite Z.ones_spec_low by lia. reflexivity.
+  - rewrite Z.ones_spec_high by lia. cbn [orb].
+    destruct H as [H0 H1]. destruct (Z.eq_dec x 0) as [->|Hx]; [apply Z.bits_0|].
+    apply Z.bits_above_log2; [lia|]. apply Z.lt_le_trans with 256; [|lia].
+    apply Z.log2_lt_pow2; [lia|]. exact H1.
+Qed.
